@@ -37,6 +37,9 @@ func (d *fakeDB) GetIPInfo(ip net.IP) (ipinfo.IPInfo, error) {
 	switch d.Mode {
 	case "error":
 		return ipinfo.IPInfo{}, errors.New("db failure")
+	case "partial-error":
+		// what the MMDB map does when the country lookup works and the ASN lookup fails: an answer AND an error
+		return ipinfo.IPInfo{CountryCode: ipinfo.CountryCode(d.CC)}, errors.New("asn db failure")
 	case "empty":
 		return ipinfo.IPInfo{ASN: ipinfo.ASN{Number: d.ASN, Organization: d.Org}}, nil
 	}
@@ -78,7 +81,7 @@ func (a stringAddr) String() string  { return a.s }
 
 func genC20Class(t *rapid.T) C20Class {
 	c := C20Class{Via: rapid.SampledFrom([]string{"addr", "addr", "ip"}).Draw(t, "via")}
-	c.DB = rapid.SampledFrom([]string{"disabled", "hit", "hit", "empty", "error"}).Draw(t, "db")
+	c.DB = rapid.SampledFrom([]string{"disabled", "hit", "hit", "empty", "error", "partial-error"}).Draw(t, "db")
 	c.CC = rapid.SampledFrom([]string{"US", "BR", "XL", "ZZ", "GB"}).Draw(t, "cc")
 	c.ASN = rapid.SampledFrom([]int{0, 1, 64512}).Draw(t, "asn")
 	c.Len4 = rapid.Bool().Draw(t, "len4")
@@ -189,7 +192,7 @@ func runC20Class(c C20Class, info *kit.Info) *kit.Finding {
 			return fail("location:db-consulted-for-nonglobal", "no database call")
 		}
 		info.Class("non-global")
-	case c.DB == "error":
+	case c.DB == "error" || c.DB == "partial-error":
 		if gotCC != "XD" {
 			return fail("location:db-error", "XD")
 		}
@@ -238,7 +241,7 @@ var c20Pairs = [][2]string{{"8.8.8.8", "93.184.216.34"}, {"2001:4860:4860::8888"
 	{"127.0.0.1", "127.7.7.7"}, {"::1", "::1"}, {"169.254.3.4", "169.254.77.88"}, {"fe80::1234", "fe80::abcd:ef"}, {"::ffff:8.8.4.4", "::ffff:151.101.1.69"}, {"100.64.3.3", "100.99.88.77"}, {"fd12:3456::1", "fdab:cdef::2"}}
 
 func genC20Expo(t *rapid.T) C20Expo {
-	c := C20Expo{IPs: rapid.SampledFrom(c20Pairs).Draw(t, "pair"), DB: rapid.SampledFrom([]string{"disabled", "hit", "hit", "empty", "error"}).Draw(t, "db"),
+	c := C20Expo{IPs: rapid.SampledFrom(c20Pairs).Draw(t, "pair"), DB: rapid.SampledFrom([]string{"disabled", "hit", "hit", "empty", "error", "partial-error"}).Draw(t, "db"),
 		CC: rapid.SampledFrom([]string{"US", "BR", "IR"}).Draw(t, "cc"), ASN: rapid.SampledFrom([]int{0, 15169}).Draw(t, "asn")}
 	c.Ports = [2]int{rapid.SampledFrom([]int{40961, 43210, 54321, 61234}).Draw(t, "p0"), rapid.SampledFrom([]int{41017, 47777, 58989, 60001}).Draw(t, "p1")}
 	n := rapid.IntRange(1, 12).Draw(t, "nops")
@@ -413,6 +416,27 @@ func runC20Expo(c C20Expo, info *kit.Info) *kit.Finding {
 					loc[s.name] = map[string]bool{}
 				}
 				loc[s.name][s.loc] = true
+			}
+		}
+		// ... and it is the label the client's class prescribes
+		wantLoc := ""
+		a := netip.MustParseAddr(c.IPs[which])
+		switch {
+		case c.DB == "disabled":
+		case isNonGlobal(a):
+			wantLoc = "XL"
+		case c.DB == "error" || c.DB == "partial-error":
+			wantLoc = "XD"
+		case c.DB == "empty":
+			wantLoc = "ZZ"
+		default:
+			wantLoc = c.CC
+		}
+		for name, ls := range loc {
+			for l := range ls {
+				if !strings.HasPrefix(l, fmt.Sprintf("location=%q ", wantLoc)) {
+					return kit.Violation("expo:wrong-location-label", "client %s (database %s): metric %s is labelled %s, the class prescribes location=%q", c.IPs[which], c.DB, name, l, wantLoc)
+				}
 			}
 		}
 		var first map[string]bool
